@@ -285,6 +285,78 @@ def cli_runs(ctx):
                             break
                     if len(lines) >= 1 and final != CLI_FILES[tname]:
                         ctx.nontriv("cli", tname, rep, mx)
+                    # 'consequently a follow-up --chunk-size=1 run accepts nothing': a new run on the result, same test, same
+                    # temp directory as a user would have it (tmpN next to the file): nothing accepted, the file as it was
+                    if tname in ("joins-ddbegin", "joins-ddend", "single-marked"):
+                        continue         # the result re-loads differently (marker words): recorded finding followup-resplit
+                    argv2 = CLI_FLAGS.get(tname, []) + ["--chunk-size=1", f"c03_{tname.replace('-', '_')}.py", str(tc)]
+                    try:
+                        with contextlib.redirect_stdout(io.StringIO()), contextlib.redirect_stderr(io.StringIO()):
+                            rc2 = Lithium().main(argv2)
+                    except (Exception, SystemExit) as exc:  # pylint: disable=broad-except
+                        ctx.fail("cli-raises", f"follow-up main({argv2[:-1]}) raised {type(exc).__name__}: {exc}", case)
+                        continue
+                    if tc.read_bytes() != final or (rc2 == 0 and lines):
+                        ctx.fail("followup-changes", f"main({argv[:-1]}) ended with {final!r}; the follow-up --chunk-size=1 run returned {rc2} and left "
+                                 f"{tc.read_bytes()!r}", dict(case, followup=True))
+    finally:
+        os.chdir(cwd)
+
+
+def bundled_test_runs(ctx):
+    """the same claim with one of the BUNDLED tests doing the judging (`outputs --search` around a deterministic checker
+    program) and an explicit --tempdir that the follow-up run shares, as a user re-running the same command line would"""
+    import contextlib
+    import io
+    import os
+    import shutil
+    import sys
+    from lithium.reducer import Lithium
+
+    d = loaders.scratch() / "c03-bundled"
+    if d.exists():
+        shutil.rmtree(d)
+    d.mkdir()
+    (d / "checker.py").write_text(
+        "import sys\nd = open(sys.argv[1], 'rb').read()\n"
+        "ok = d.find(b'A\\n') != -1 and d.find(b'A\\n') < d.find(b'B\\n') and d.count(b'x\\n') != 1\n"
+        "print('FOUND' if ok else 'nothing')\n")
+    fn = lambda d_: d_.find(b"A\n") != -1 and d_.find(b"A\n") < d_.find(b"B\n") and d_.count(b"x\n") != 1
+    cwd = os.getcwd()
+    os.chdir(d)
+    try:
+        for rep, extra in (("last", []), ("always", ["--max=2"])):
+            tc = d / "tc.txt"
+            data = b"x\nA\nx\nq\nB\nx\n"
+            tc.write_bytes(data)
+            td = d / f"td-{rep}"
+            td.mkdir()
+            base = ["--tempdir=" + str(td)]
+            tail = ["outputs", "--search", "FOUND", sys.executable, str(d / "checker.py"), str(tc)]
+            case = dict(cli=True, argv=base + [f"--repeat={rep}"] + extra + tail[:3], test="outputs around a checker", data=common.enc_bytes(data))
+            try:
+                with contextlib.redirect_stdout(io.StringIO()), contextlib.redirect_stderr(io.StringIO()):
+                    rc = Lithium().main(base + [f"--repeat={rep}"] + extra + tail)
+                    final = tc.read_bytes()
+                    rc2 = Lithium().main(base + ["--chunk-size=1"] + tail)
+            except (Exception, SystemExit) as exc:  # pylint: disable=broad-except
+                ctx.fail("cli-raises", f"main with the bundled outputs test raised {type(exc).__name__}: {exc}", case)
+                continue
+            ctx.evaluations += 1
+            ctx.bump("bundled-test-runs")
+            lines = final.splitlines(keepends=True)
+            if rc != 0 or not fn(final):
+                ctx.fail("cli-result", f"main(... outputs ...) returned {rc} and left {final!r}", case)
+                continue
+            for i in range(len(lines)):
+                less = b"".join(lines[:i] + lines[i + 1:])
+                if fn(less):
+                    ctx.fail("not-1-minimal", f"main(... outputs ...) ended with {final!r}: deleting line {i} gives {less!r}, which the checker accepts", case)
+                    break
+            if tc.read_bytes() != final or rc2 == 0:
+                ctx.fail("followup-changes", f"main(... outputs ...) ended with {final!r}; the follow-up --chunk-size=1 run into the same --tempdir "
+                         f"returned {rc2} and left {tc.read_bytes()!r}", dict(case, followup=True))
+            ctx.nontriv("bundled", rep)
     finally:
         os.chdir(cwd)
 
@@ -304,6 +376,7 @@ def run(ctx) -> int:
         ctx.exhaustive.append(f"every deterministic test (verdict tree) for n <= {nmax} atoms x 3 input shapes x {len(CFGS)} option settings")
     family_runs(ctx, 12 if ctx.thorough else 6)
     cli_runs(ctx)
+    bundled_test_runs(ctx)
     return common.decide(ctx, proof, RULE, search=search,
                          assumptions=["the follow-up clause is proved only when re-splitting the result reproduces the remaining atoms (C03_followup_partial); "
                                       "otherwise it is a recorded finding"])
